@@ -75,7 +75,7 @@ fn strategy(ki: usize) -> impl Fn(Tier) -> BoxedStrategy<Case> + Send + Sync {
     move |tier: Tier| {
         let (kind, _, min_n) = KINDS[ki];
         let heavy = matches!(kind, Kind::TrendFlex | Kind::ReFlex | Kind::Roofing | Kind::SuperSmoother);
-        (gen::window(tier, min_n, if heavy { 16 } else { 24 }, if heavy { 64 } else { 200 }), 0usize..30, 1usize..=9, gen::dyadic_scale())
+        (gen::window(tier, min_n, if heavy { 16 } else { 24 }, if heavy { 64 } else { 200 }), 0usize..30, 1usize..=9, gen::dyadic_scale_wide())
             .prop_flat_map(move |(n, p, m, sc)| {
                 let len = if heavy { 3 * n + 30 } else { 6 * n + 40 };
                 gen::stream(StreamCfg::new(n).scale(sc).len(0, len).kmax(2048)).prop_map(move |xs| Case { spec: Some(mk(kind, n, p, m)), xs, ints: vec![ki as i64, n as i64, p as i64, m as i64], a: Rat(1, 1), ..Default::default() })
@@ -115,7 +115,8 @@ fn check(exact: bool) -> impl Fn(&Case) -> Verdict + Send + Sync {
                 exempt += 1;
                 continue;
             }
-            let scale = &maxabs[t] + R::one();
+            // the definitions are homogeneous in the input unit: tolerances and conditioning are relative to the largest input seen
+            let scale = if exact { &maxabs[t] + R::one() } else { maxabs[t].clone() };
             if !exact && normalised {
                 // a ratio whose normalising denominator has all but vanished is ill-conditioned in floating point (C16's subject)
                 if let Some(Some(d)) = refs[0].denom.get(t) {
